@@ -122,7 +122,7 @@ var (
 	// that is current while pkg/clos initialises), and signalling any condition in a package that cannot
 	// see the class unbound-variable / undefined-function faults with a nil pointer; that is not the
 	// subject of C13, so the test packages use this class-only package besides CL.
-	condPkg *slip.Package
+	condPkg  *slip.Package
 	pristine = []*slip.Package{}
 )
 
@@ -353,14 +353,6 @@ func in(s string, set []string) bool {
 	return false
 }
 
-// ---------------------------------------------------------------- exclusions of open findings
-
-// excluded names the open finding (by its tag) that explains, by construction, why a history cannot be
-// judged; "" if none. It is a predicate over the case (through the model), never over slip's answers.
-func excluded(c Case) string {
-	return ""
-}
-
 // ---------------------------------------------------------------- the oracle run
 
 func namesOf(c Case) []string {
@@ -386,10 +378,6 @@ func runHistory(c Case) (res *h.Result) {
 	res = &h.Result{}
 	if c.NP < 1 || c.NP > len(pkgNames) {
 		return h.Fail("bad case: np=%d", c.NP)
-	}
-	if tag := excluded(c); tag != "" {
-		res.Skip = tag
-		return
 	}
 	names := namesOf(c)
 	m := refpkg.New(c.NP)
@@ -538,7 +526,7 @@ func genHistory(rt *rapid.T) Case {
 	default:
 		focus = all
 	}
-	n := rapid.IntRange(3, 40).Draw(rt, "len")
+	n := 40 - rapid.IntRange(0, 37).Draw(rt, "short") // rapid prefers small draws: prefer long histories
 	m := refpkg.New(c.NP)
 	// a thread through the history: owner P defines and exports name nm, Q uses P; about a third of the
 	// steps are drawn from the steps that build or retract exactly that, in any order
@@ -644,6 +632,7 @@ func TestC13(t *testing.T) {
 	h.RunProp(t, enumVar, 0)
 	h.RunProp(t, enumFn, 0)
 	h.RunProp(t, enumMixed, 0)
+	h.RunProp(t, importProp, 0)
 	h.RunProp(t, history, h.N(8000, 100000))
 
 	lv, lm := 4, 3
@@ -654,4 +643,15 @@ func TestC13(t *testing.T) {
 	h.Enumerate(t, enumVar, func(yield func(Case) bool) { enumerate(2, alphabet(2, []string{"x"}, false), lv, yield) })
 	h.Enumerate(t, enumFn, func(yield func(Case) bool) { enumerate(2, alphabet(2, []string{"f"}, false), lv, yield) })
 	h.Enumerate(t, enumMixed, func(yield func(Case) bool) { enumerate(3, alphabet(3, []string{"x", "f"}, true), lm, yield) })
+	if h.C.Shard == 0 {
+		// a name imported through the Go extension interface (Package.Import): 8 step kinds, length 4
+		h.Enumerate(t, importProp, func(yield func(ImpCase) bool) {
+			more := true
+			for _, n := range []string{"x", "f"} {
+				if more {
+					enumerateImport(n, 4, func(c ImpCase) bool { more = yield(c); return more })
+				}
+			}
+		})
+	}
 }
